@@ -7,6 +7,8 @@ import (
 	"encoding/json"
 	"fmt"
 	"os"
+	"runtime"
+	"strings"
 	"sync"
 	"time"
 
@@ -55,6 +57,36 @@ func volume(req *inflproto.Req) *inflproto.Resp {
 			r.alone[w] = r.f(w)
 		}
 	}
+	if req.RaiseProcs > 1 {
+		// the inflector's tables were built during package init, under the GOMAXPROCS of that moment
+		runtime.GOMAXPROCS(runtime.GOMAXPROCS(0) * req.RaiseProcs)
+	}
+	giantFirst := map[string]string{}
+	if req.GiantKiB > 0 {
+		// very long inputs: the same clause, and the same answer when asked again
+		func() {
+			defer func() {
+				if r := recover(); r != nil {
+					resp.Mismatches = append(resp.Mismatches, fmt.Sprintf("panic: %v (input of %d KiB)", r, req.GiantKiB))
+				}
+			}()
+			pre := strings.Repeat("lorem ipsum dolor sit amet ", req.GiantKiB<<10/27+1)
+			for _, r := range rules {
+				// a regular last word walks the whole rule chain: remembered now, asked again at the very end
+				giantFirst[r.name] = r.f(pre + "thing")
+				resp.Checked++
+			}
+			for _, r := range rules {
+				w := r.words[0]
+				for k := 0; k < 2; k++ {
+					if got := r.f(pre + w); got != pre+r.alone[w] {
+						resp.Mismatches = append(resp.Mismatches, fmt.Sprintf("%s(<%d KiB of text> + %q), call %d = ...%q, want ...%q", r.name, req.GiantKiB, w, k+1, tail(got, 24), r.alone[w]))
+					}
+					resp.Checked++
+				}
+			}
+		}()
+	}
 	var mu sync.Mutex
 	report := func(format string, args ...any) {
 		mu.Lock()
@@ -102,7 +134,30 @@ func volume(req *inflproto.Req) *inflproto.Resp {
 		}(k)
 	}
 	wg.Wait()
+	if req.GiantKiB > 0 && len(giantFirst) > 0 {
+		func() {
+			defer func() {
+				if r := recover(); r != nil {
+					resp.Mismatches = append(resp.Mismatches, fmt.Sprintf("panic: %v (input of %d KiB)", r, req.GiantKiB))
+				}
+			}()
+			pre := strings.Repeat("lorem ipsum dolor sit amet ", req.GiantKiB<<10/27+1)
+			for _, r := range rules {
+				if got := r.f(pre + "thing"); got != giantFirst[r.name] {
+					resp.Mismatches = append(resp.Mismatches, fmt.Sprintf("%s(<%d KiB of text> + \"thing\") = ...%q at the start of the process and ...%q at its end", r.name, req.GiantKiB, tail(giantFirst[r.name], 12), tail(got, 12)))
+				}
+				resp.Checked++
+			}
+		}()
+	}
 	return resp
+}
+
+func tail(s string, n int) string {
+	if len(s) > n {
+		return s[len(s)-n:]
+	}
+	return s
 }
 
 func splitmix(x *uint64) uint64 {
